@@ -22,6 +22,9 @@ SITES = [
        {"len(self.potential.ensemble_shape)": "nens"}, "Bool"),
     _s("dHasPlanes", _MS, "MultisliceTransform._default_ensemble_chunks", ("iftest", "exit_planes", 0), ["nplanes"],
        {"len(self.potential.exit_planes)": "nplanes"}, "Bool"),
+    # what MultisliceTransform._from_partitioned_args forwards to the per-block transform
+    dict(gen="Blockwise", name="forwardedToBlocks", file=_MS, func="MultisliceTransform._from_partitioned_args",
+         call_keywords=("partial", 0), select=("return", 0), params=[], params_map={}, modes=["rat"]),
     # the three places of MultisliceTransform that decide whether the output has an exit-plane (thickness) axis
     _s("tShapePlanes", _MS, "MultisliceTransform.ensemble_shape", ("iftest", "exit_planes", 0), ["nplanes"],
        {"len(self._potential.exit_planes)": "nplanes"}, "Bool"),
